@@ -46,6 +46,8 @@ c3 := mut "s";
 c4 := mut [int] [];
 c5 := mut int|float 0;
 c6 := mut any 0;
+cl := mut [int] [0; 40];
+cs := mut "0123456789012345678901234567890123456789012345678901234567890123456789";
 m1 := mut 0;
 m2 := mut 0;
 a := [c0, c0];
@@ -54,6 +56,7 @@ s := struct{f := c3, g := c0, h := c4};
 cc := mut c0;
 g := () -> mut int { return c0 };
 idf := (x: mut int) -> mut int { return x };
+idarr := (x: mut [int]) -> mut [int] { return x };
 viaarr := (xs: [mut int]) -> mut int { return xs[0] };
 mk := () -> mut int { return mut 0 };
 selfc := mut any 0;
@@ -101,6 +104,9 @@ pub const CELLS: &[CellSpec] = &[
     CellSpec { name: "m1", kind: Kind::Int, paths: &["m1", "idf(m1)"], init: Val::Int(0) },
     CellSpec { name: "m2", kind: Kind::Int, paths: &["m2"], init: Val::Int(0) },
     CellSpec { name: "cc", kind: Kind::CellOfInt, paths: &["cc"], init: Val::Ref(0) },
+    // long contents: implementations that treat large arrays / strings specially
+    CellSpec { name: "cl", kind: Kind::ArrInt, paths: &["cl", "idarr(cl)"], init: Val::Arr(vec![]) },
+    CellSpec { name: "cs", kind: Kind::Str, paths: &["cs"], init: Val::Str(String::new()) },
 ];
 pub const CC: usize = 9;
 /// further cells of the world that are not modelled: only their declared-type invariant is judged
@@ -111,6 +117,8 @@ pub const PATH_VIA_CC: usize = 1000;
 pub fn init_heap() -> Vec<Val> {
     let mut h: Vec<Val> = CELLS.iter().map(|c| c.init.clone()).collect();
     h[3] = Val::Str("s".into());
+    h[10] = Val::Arr(vec![Val::Int(0); 40]);
+    h[11] = Val::Str("0123456789012345678901234567890123456789012345678901234567890123456789".into());
     h
 }
 
